@@ -308,10 +308,44 @@ fn render_cases(out: &mut Out, max_len: usize) {
     }
 }
 
+/// Terminal rendering of long lines (the model has no width limit, so neither may the code).
+fn render_long(out: &mut Out) {
+    use incan_syntax::ast::Span;
+    for width in [78usize, 100, 118, 119, 120, 121, 130, 250] {
+        for ch in ['é', '😀'] {
+            for shift in 0..4usize {
+                let doc = format!("{}{ch}{ch}{ch}zz\nnext", "a".repeat(width - shift));
+                for (s, e) in [(0usize, 1usize), (width - 2, width + 3), (doc.len() - 5, doc.len())] {
+                    let err = CompileError::new("m".to_string(), Span::new(s, e));
+                    let real = match catch(|| format_error("F", &doc, &err)) {
+                        Err(m) => format!("panic {m}"),
+                        Ok(txt) => {
+                            let plain: String = txt
+                                .split('\x1b')
+                                .enumerate()
+                                .map(|(i, p)| if i == 0 { p.to_string() } else { p.splitn(2, 'm').nth(1).unwrap_or("").to_string() })
+                                .collect();
+                            let loc = plain.split("  --> F:").nth(1).and_then(|r| r.split('\n').next()).unwrap_or("?:?").to_string();
+                            let last = plain.trim_end_matches('\n').rsplit('\n').next().unwrap_or("").to_string();
+                            let after_bar = last.splitn(2, "| ").nth(1).unwrap_or("");
+                            let spaces = after_bar.chars().take_while(|c| *c == ' ').count();
+                            let carets = after_bar.chars().filter(|c| *c == '^').count();
+                            let shown = plain.split('\n').nth(3).and_then(|l| l.splitn(2, "| ").nth(1)).unwrap_or("").to_string();
+                            format!("{} {spaces} {carets} {}", loc.replace(':', " "), enc_str(&shown))
+                        }
+                    };
+                    out.case(&format!("c11 renderline {} {s} {e}", enc_str(&doc)), &real);
+                }
+            }
+        }
+    }
+}
+
 pub fn run(out: &mut Out, tier: &str, seed: u64, scratch: &str) {
     let mut rng = Rng::new(seed);
     let thorough = tier == "thorough";
     render_cases(out, if thorough { 4 } else { 3 });
+    render_long(out);
     let files = corpus::files();
     let mut inputs: Vec<(String, String)> = Vec::new(); // (origin, source)
     for (name, src) in &files {
@@ -339,6 +373,30 @@ pub fn run(out: &mut Out, tier: &str, seed: u64, scratch: &str) {
     for (name, src) in files.iter().filter(|(_, s)| s.len() < if thorough { 1500 } else { 500 }) {
         for (i, _) in src.char_indices() {
             inputs.push((format!("trunc-all:{name}:{i}"), src[..i].to_string()));
+        }
+    }
+    // every literal opener / escape introducer followed by multi-byte characters and truncated at each point
+    let openers = ["\"", "'", "b\"", "b'", "f\"", "f'", "\"\"\"", "'''"];
+    let escapes = ["\\", "\\x", "\\x4", "\\n", "\\u", "{", "{{", "}", "\\\\", "\\0"];
+    let tails = ["é", "€", "😀", "é\"", "€'", "😀\"\"\"", "4é\"", "\n", ""];
+    let mut k = 0;
+    for o in openers {
+        for e in escapes {
+            for t in tails {
+                inputs.push((format!("lit:{k}"), format!("x = {o}{e}{t}")));
+                inputs.push((format!("lit-fn:{k}"), format!("def f() -> None:\n    x = {o}ab{e}{t}\n    return\n")));
+                k += 1;
+            }
+        }
+    }
+    // long lines with multi-byte characters sliding across every byte offset around typical clip widths
+    for width in [60usize, 78, 79, 80, 99, 100, 118, 119, 120, 121, 127, 128, 200, 255, 256] {
+        for ch in ['é', '€', '😀'] {
+            for shift in 0..4usize {
+                let pad = "a".repeat(width.saturating_sub(shift + 8));
+                inputs.push((format!("long:{width}:{shift}"), format!("x = \"{pad}{ch}{ch}{ch}\" $ {ch}\n")));
+                inputs.push((format!("long-err:{width}:{shift}"), format!("def f() -> int:\n    return \"{pad}{ch}{ch}\" + undefined_name_{ch}\n")));
+            }
         }
     }
     for (i, s) in nesting_inputs(200).into_iter().enumerate() {
